@@ -14,7 +14,28 @@ THRESHOLDS = [0.0, 0.25, 0.5, 0.7, 0.9, 0.95, 0.99, 1.0]
 # ---------------------------------------------------------------------------------------------
 # generator
 # ---------------------------------------------------------------------------------------------
+def gen_one_percent(rng) -> dict:
+    """layouts around griddify's 1% rule: a long thin cell next to cells whose boundary crosses it close to one end, at a distance
+    between 1% of its short side and 1% of its long side (must be cut), or below 1% of its short side (must not)"""
+    u = rng.choice([1.0, 0.5, 10.0, 0.1])
+    L = rng.choice([40, 100, 200]) * u          # long side
+    frac = rng.choice([0.002, 0.005, 0.015, 0.03, 0.2, 0.5, 0.008 * 100 / (L / u)])   # distance of the crossing line from the end, in units of the SHORT side... or long
+    d = rng.choice([frac * u, frac * L * 0.5])
+    d = float(f"{max(d, 1e-4 * u):.6g}")
+    tall = rng.random() < 0.5
+    if tall:    # thin tall cell [0,u]x[0,L]; neighbours [u,3u]x[0,d] and [u,3u]x[d,L]
+        cells = [[u / 2, L / 2, u, L], [2 * u, d / 2, 2 * u, d], [2 * u, d + (L - d) / 2, 2 * u, L - d]]
+        ext = [3 * u, L]
+    else:       # thin wide cell [0,L]x[0,u]; neighbours [0,d]x[u,3u] and [d,L]x[u,3u]
+        cells = [[L / 2, u / 2, L, u], [d / 2, 2 * u, d, 2 * u], [d + (L - d) / 2, 2 * u, L - d, 2 * u]]
+        ext = [L, 3 * u]
+    cells = [{"r": [float(f"{v:.9g}") for v in c], "a": {"M0": round(rng.random(), 2) or 0.5}, "d": 0, "f": False} for c in cells]
+    return {"fam": "one_percent", "layout": "one_percent", "cells": cells, "ops": [["griddify"]], "form": "tuples", "t": 0.5, "ext": ext}
+
+
 def gen_alloc(rng, max_cells: int = 40, allow_fixed: bool = True) -> dict:
+    if allow_fixed and max_cells >= 40 and rng.random() < 0.06:
+        return gen_one_percent(rng)
     fam = geo.pick_family(rng)
     layout = rng.choice(["guillotine", "guillotine", "guillotine", "vstrips", "hstrips", "grid", "single", "two"])
     sc = rng.choice([1.0, 1.0, 10.0, 1e3, 1e-3])
